@@ -42,6 +42,17 @@ fn bases() -> Vec<(&'static str, SPDC)> {
   if let Ok(s) = SPDC::from_json(bbo.to_string()) {
     out.push(("bbo_noncollinear", s));
   }
+  let ppln = json!({
+    "crystal": {"kind": "LiNbO3_1", "pm_type": "Type0_e_ee", "phi_deg": 0, "theta_deg": 90, "length_um": 5000, "temperature_c": 80},
+    "pump": {"wavelength_nm": 532, "waist_um": 60, "bandwidth_nm": 0.1, "average_power_mw": 50},
+    "signal": {"wavelength_nm": 810, "phi_deg": 0, "theta_external_deg": 0.5, "waist_um": 45, "waist_position_um": -1200},
+    "idler": "auto",
+    "periodic_poling": {"poling_period_um": 7.4, "apodization": {"kind": "Bartlett", "parameter": 1.25}},
+    "deff_pm_per_volt": 14.0
+  });
+  if let Ok(s) = SPDC::from_json(ppln.to_string()) {
+    out.push(("ppln_type0_bartlett", s));
+  }
   out
 }
 
@@ -268,6 +279,19 @@ pub fn run(args: &[String]) {
     } else {
       Vec::new()
     };
+    // normalised sweep: swept values vs (raw value of the individually constructed setup) / (raw value at the optimised base's centre)
+    let base2 = base.clone();
+    let centre: Option<f64> = if with_jsi {
+      guarded(move || base2.try_as_optimum().ok().map(|opt| jsi_of(&opt))).ok().flatten()
+    } else {
+      None
+    };
+    let swept_norm: Vec<f64> = if centre.is_some() {
+      let b3 = base.clone();
+      guarded(move || SPDCIter::try_new(b3, p1, p2, steps).map(|i| i.jsi_values_normalized(Integrator::default())).unwrap_or_default()).unwrap_or_default()
+    } else {
+      Vec::new()
+    };
     // the raw grid values as the iterator produces them
     let grid: Vec<(f64, f64)> = steps.into_iter().collect();
     let mut items = Vec::new();
@@ -280,9 +304,10 @@ pub fn run(args: &[String]) {
         Err(_) => (Value::Null, Value::Null, false),
       };
       items.push(json!({"j": j, "v1": fx(v1), "v2": fx(v2), "cfg": flat_config(s), "indiv_cfg": icfg, "indiv_jsi": ijsi, "identical": same,
-        "jsi": if with_jsi && j < swept_jsi.len() { fx(swept_jsi[j]) } else { Value::Null }}));
+        "jsi": if with_jsi && j < swept_jsi.len() { fx(swept_jsi[j]) } else { Value::Null },
+        "jsi_norm": if j < swept_norm.len() { fx(swept_norm[j]) } else { Value::Null }}));
     }
     emit(json!({"kind": "sweep", "base": bname, "p1": p1, "p2": p2, "r1": [fx(r1.0), fx(r1.1)], "r2": [fx(r2.0), fx(r2.1)], "nx": nx, "ny": ny,
-      "count": setups.len(), "jsi_count": swept_jsi.len(), "with_jsi": with_jsi, "items": items, "base_cfg": flat_config(base)}));
+      "count": setups.len(), "jsi_count": swept_jsi.len(), "norm_count": swept_norm.len(), "centre": centre.map(fx), "with_jsi": with_jsi, "items": items, "base_cfg": flat_config(base)}));
   }
 }
